@@ -64,7 +64,7 @@ TInit ==
     /\ InitFor(1)
     /\ l = 1
     /\ skip = TRUE
-    /\ case = [case |-> 0, exec |-> "none", chart |-> 1]
+    /\ case = [case |-> 0, exec |-> "none", chart |-> 1, resumed |-> FALSE]
 
 TReset ==
     /\ Line.k = "reset"
@@ -75,10 +75,11 @@ TReset ==
     /\ ret' = "INSTANTIATED"
     /\ rootEntries' = 0
     /\ skip' = FALSE
-    /\ case' = [case |-> Line.case, exec |-> Line.exec, chart |-> Line.chart]
+    /\ case' = [case |-> Line.case, exec |-> Line.exec, chart |-> Line.chart, resumed |-> FALSE]
     /\ l' = l + 1
 
-PropOf(p) == IF case.exec = "genc" /\ p \in {"C01", "C10", "C07"} THEN "C04"
+PropOf(p) == IF case.resumed /\ p \in {"C01", "C10"} THEN "C14"
+             ELSE IF case.exec = "genc" /\ p \in {"C01", "C10", "C07"} THEN "C04"
              ELSE IF case.exec = "pml" /\ p \in {"C01", "C10", "C07"} THEN "C06" ELSE p
 
 Verdict(prop, why, exp, got, extra) ==
@@ -134,13 +135,26 @@ TCancel ==
     /\ UNCHANGED <<skip, case>>
     /\ l' = l + 1
 
+\* C14: the original interpreter was serialized and a fresh one resumed from the text
+TResume ==
+    /\ Line.k = "call" /\ Line.op = "resume" /\ ~skip
+    /\ IF Line.ret = "ok" /\ ENABLED EnvResume
+       THEN EnvResume /\ UNCHANGED skip /\ case' = [case EXCEPT !.resumed = TRUE]
+       ELSE /\ ~Strict
+            /\ Report([Verdict("C14", "resume-" \o Line.ret, "ok", Line.ret, <<>>) EXCEPT !.property = "C14"])
+            /\ skip' = TRUE /\ UNCHANGED <<vars, case>>
+    /\ l' = l + 1
+
 \* final data values and the way the process ended
 TEnd ==
     /\ Line.k = "end" /\ ~skip
     /\ LET badExit == Line.exit # "ok"
            dmGot == {<<Line.dm[i].n, Line.dm[i].def, Line.dm[i].v>> : i \in 1..Len(Line.dm)}
-           dmExp == {<<n, m.dm[n].def, m.dm[n].v>> : n \in DOMAIN m.dm}
-           badDm == ~badExit /\ Line.dm # <<>> /\ dmGot # dmExp
+           \* a variable whose initialisation failed is an "empty data element" (IRP #277):
+           \* what reading it yields is the datamodel's business; only bound variables are compared
+           bound == {n \in DOMAIN m.dm : m.dm[n].def}
+           dmExp == {<<n, TRUE, m.dm[n].v>> : n \in bound}
+           badDm == ~badExit /\ Line.dm # <<>> /\ ~(dmExp \subseteq dmGot)
        IN  /\ (badExit => Report(Verdict("C07", "exit", "ok", Line.exit, <<>>)))
            /\ (badDm => Report(Verdict("C01", "data", dmExp, dmGot, <<>>)))
            /\ (Strict => ~badExit /\ ~badDm)
@@ -158,7 +172,7 @@ TSkip ==
     /\ l' = l + 1
 
 TNext == /\ l <= Len(TraceLog)
-         /\ (TReset \/ TStep \/ TReceive \/ TCancel \/ TEnd \/ TSkip)
+         /\ (TReset \/ TStep \/ TReceive \/ TCancel \/ TResume \/ TEnd \/ TSkip)
          /\ (l = Len(TraceLog) => PrintCounts)
 
 TraceSpec == TInit /\ [][TNext]_tvars
